@@ -41,7 +41,10 @@ def verus_version():
 
 
 def run(unit_path, threads=16, extra=None, timeout=1800, cache_dir=None, cache_key_extra=''):
-    cmd = ['verus', unit_path, '--output-json', '--time', '--num-threads', str(threads), '--error-format=json']
+    # -V spinoff-all: one solver instance per function, so the proof of one function cannot be perturbed by
+    # solver state left behind by another (a change in function A then cannot flip B to rlimit or back)
+    cmd = ['verus', unit_path, '--output-json', '--time', '--num-threads', str(threads), '--error-format=json',
+           '-V', 'spinoff-all']
     if extra:
         cmd += extra
     text = open(unit_path).read()
